@@ -30,7 +30,7 @@ manifest = {
     "setup_cmd": "./setup.sh",
     "hooks": {
         "guard": "verif",
-        "enable": "go build tag: every harness binary is built with `-tags verif` (hooks live in new files gateway/verif_hooks.go and client/verif_hooks.go guarded by //go:build verif)",
+        "enable": "go build tag: every harness binary is built with `-tags verif` (hooks live in new files gateway/verif_hooks.go, client/verif_hooks.go and transactions/verif_hooks.go guarded by //go:build verif)",
         "baseline_off_cmd": "cd /repo && go test -vet=off -count=1 -timeout 25m ./...",
         "source_commits": hooks_commits,
         "add_only": True,
